@@ -53,3 +53,7 @@ SPEC["manifest"]["text"] += (" Racing mode (PairArb.v), for the property's secon
     "(C03_racing_agreement_partial), and from EVERY reachable state such a state can still be reached - a kernel-checked distance certificate "
     "(C03_racing_agreement_stays_reachable_partial). A quarter of the random pair runs are scheduled in this mode; after a racing expiry the monitor demands agreement, not success.")
 SPEC["assumptions"] += ["racing mode as defined in PairArb.arb_next (expiry_held)"]
+
+# the patient- and racing-mode theorems live in their own statement file (compiled and assumption-checked on every run;
+# coqchk in the thorough tier re-checks props/C03.v only - see the header of props/C03_modes.v)
+SPEC["props_extra"] = ["props/C03_modes.v"]
